@@ -18,14 +18,14 @@ def find_state_change_intervals(
     step=60,
 ) -> Generator:
     succ_value = get(head)
-    logger.debug('%s at head %s' % succ_value, head)
+    logger.debug('%s at head %s', succ_value, head)
 
     for level in range(head - step, last, -step):
         value = get(level)
-        logger.debug('%s at level %s' % value, level)
+        logger.debug('%s at level %s', value, level)
 
         if not equals(value, succ_value):
-            logger.debug('%s -> %s at (%s, {level + step})' % value, succ_value, level)
+            logger.debug('%s -> %s at (%s, %s)', value, succ_value, level, level + step)
             yield level + step, succ_value, level, value
             succ_value = value
 
@@ -43,7 +43,7 @@ def find_state_change(
 
         level = (end + start) // 2
         value = get(level)
-        logger.debug('%s at level %s' % value, level)
+        logger.debug('%s at level %s', value, level)
 
         if equals(value, pred_value):
             return bisect(level, end)
@@ -65,7 +65,7 @@ def walk_state_change_interval(
     value = last_value
     while not equals(value, head_value):
         level, value = find_state_change(head, level, get, equals, pred_value=value)
-        logger.debug('%s -> %s at %s' % last_value, value, level)
+        logger.debug('%s -> %s at %s', last_value, value, level)
         yield level, value
 
 
